@@ -346,6 +346,7 @@ def write_ev(pid, tier, seed, mod, results, validated, mismatches, confirmed, ne
             'solver_seconds': round(sum(r['solver_s'] for r in results), 2),
             'leaf_obligations_rechecked_with_cvc5': sum(r['cross_n'] for r in results),
             'cvc5_seconds': round(sum(r['cross_s'] for r in results), 2),
+            'cvc5_gave_up_on': sum(r['cross_timeouts'] for r in results),
             'mir_statements_executed': sum(r['steps'] for r in results),
             'functions_interpreted': fns,
             'models_used': mods,
